@@ -5,7 +5,7 @@ From Coq Require Import List Arith ZArith.
 Import ListNotations.
 From YP Require Import Base.Str Term.Term Unify.Unify Lang.Ast Comp.IR Comp.CompileBody Comp.CompileClause Comp.CompileTotal
   Sem.Res Sem.RefSem Sem.IRSem Sem.ControlCorrect Sem.Machine Sem.ClauseSem Sem.ProgramCorrect Sem.SpecLemmas Sem.Fresh Sem.SldR Sem.RenameSim Sem.Main.
-From YP Require Import Unify.Rename.
+From YP Require Import Unify.Rename Lang.Front Comp.Emit Comp.PyRepr Comp.CompileText Sem.SourceMain.
 
 (* the model compiler produces code for every program (it never gets stuck, whatever the nesting) *)
 Theorem C01_compile_program_total : forall p, compile_program p <> None.
@@ -45,6 +45,25 @@ Theorem C01_compiled_program_is_sld : forall n p ir,
   snd (query n ir name args s) = snd (solveR n p name args s).
 Proof. exact compiled_program_is_sld. Qed.
 Print Assumptions C01_compiled_program_is_sld.
+
+(* FROM SOURCE TEXT.  compile_text is the model of compile_prolog_from_string (lexer, parser, visitor,
+   compiler, emitter with Python's repr, CPython's static limits; compared byte for byte with the
+   implementation in the C11 check).  Whatever text it accepts is a program P (front s = Some P) whose emitted
+   text is the emission of intermediate code that computes, for every query, depth and well-formed state, the
+   answers of SLD resolution of P - no side condition on P is left: every program the front end produces is
+   free of internal markers (C01_front_good). *)
+Theorem C01_source_text_is_sld : forall printable s text,
+  compile_text printable s = CText text ->
+  exists p ir, front s = Some p /\ compile_program p = Some ir /\ text = emit_program (py_repr printable) ir /\
+    forall n name args st, wf (sto st) -> inv st -> Forall (bounded (nxt st)) args ->
+      Forall2 (same_answer st) (fst (query n ir name args st)) (fst (solveR n p name args st)) /\
+      snd (query n ir name args st) = snd (solveR n p name args st).
+Proof. exact source_text_is_sld. Qed.
+Print Assumptions C01_source_text_is_sld.
+
+Theorem C01_front_good : forall s p, front s = Some p -> good_program p.
+Proof. exact front_good. Qed.
+Print Assumptions C01_front_good.
 
 (* the same between the two references: naming a goal argument versus renaming every variable apart *)
 Theorem C01_naming_equals_renaming_apart : forall n prog name args s,
